@@ -572,8 +572,15 @@ func (f *Formatter) formatReturnStatement(stmt *ast.ReturnStatement) string {
 			prefix = "("
 			suffix = ")"
 		}
+		expr := f.formatExpression(stmt.ReturnExpression).String()
+		// A return value that starts with a parenthesis must stay wrapped, otherwise
+		// "return (a) && b;" is parsed as "return (a)" followed by garbage.
+		if prefix == " " && startsWithGroup(stmt.ReturnExpression) {
+			prefix = " ("
+			suffix = ")"
+		}
 		buf.WriteString(prefix)
-		buf.WriteString(f.formatExpression(stmt.ReturnExpression).String())
+		buf.WriteString(expr)
 		buf.WriteString(suffix)
 		if v := f.formatComment(stmt.ParenthesisTrailingComments, "", 0); v != "" {
 			buf.WriteString(" " + v)
@@ -587,6 +594,19 @@ func (f *Formatter) formatReturnStatement(stmt *ast.ReturnStatement) string {
 	buf.WriteString(";")
 
 	return buf.String()
+}
+
+// startsWithGroup reports whether the first token of the expression is an opening parenthesis
+func startsWithGroup(expr ast.Expression) bool {
+	switch t := expr.(type) {
+	case *ast.GroupedExpression:
+		return true
+	case *ast.InfixExpression:
+		return startsWithGroup(t.Left)
+	case *ast.PostfixExpression:
+		return startsWithGroup(t.Left)
+	}
+	return false
 }
 
 // Format synthetic statement
